@@ -43,7 +43,7 @@ def BOUNDS(tier):
             
             "empty": {"depth": 4, "alphabet": "full"}, "handles": ["ABAB", "fresh"],
             "states mode (E1s, de-duplicated BFS)": {"mini": "all canonical states <= 2 thin operations away (3 869), every thin operation from each: depth 3",
-                                                     "empty": "all canonical states <= 4 operations away (11 911), every operation from each: depth 5"}}
+                                                     "empty": "all canonical states <= 3 operations away, every operation from each: depth 4 (depth 5 = 11 911 states was measured but does not fit the time budget together with the un-merged depth-4 histories)"}}
 
 
 def handle_cfg(ent):
@@ -85,7 +85,7 @@ def cases(tier):
     if tier == "quick":
         plan = [("mini", 1, "thin")]
     else:
-        plan = [("mini", 2, "thin"), ("empty", 4, "full")]
+        plan = [("mini", 2, "thin"), ("empty", 3, "full")]
     for seed, depth, cname in plan:
         states, stats = bfs.enumerate_states(seed, depth, BFS_CFG[cname], cache_key=cname)
         BFS_STATS["%s/%d/%s" % (seed, depth, cname)] = stats
